@@ -229,6 +229,8 @@ def case_addsub(case, col=None):
         col.case(("as", ua, ub, op, auto, str(x), str(y)), ua != ub, sample={"a": [x, ua], "op": op, "b": [y, ub], "autoconvert": auto}, cls=f"{ka}{op}{kb}")
     a, b = ureg.Quantity(x, ua), ureg.Quantity(y, ub)
     f = operator.add if op == "+" else operator.sub
+    if kb != "O":
+        _addsub_scaled_operand(ureg, f, op, a, x, ua, y, ub, ka, kb)
     s, r = attempt(f, a, b)
     try:
         wv, wu = model_addsub(op, x, ua, y, ub)
@@ -261,6 +263,31 @@ def case_addsub(case, col=None):
             raise Violation("zero_refused", f"Q({x},{ua}) {op} 0 raised {r2!r}")
         if not ok and s2 == "ok":
             raise Violation("number_accepted", f"Q({x},{ua}) {op} 3 returned {r2.magnitude!r}")
+
+
+def _addsub_scaled_operand(ureg, f, op, a, x, ua, y, ub, ka, kb):
+    """The right operand written with a dimensionless scale in its units (y ub * 2 m / cm == 200*y ub): same physics, same rules."""
+    import pint
+
+    b2 = ureg.Quantity(y, ub) * ureg.Quantity(2, "meter") / ureg.Quantity(1, "centimeter")
+    s, r = attempt(f, a, b2)
+    try:
+        wv, wu = model_addsub(op, x, ua, 200 * y, ub)
+    except ModelErr:
+        if s == "ok":
+            raise Violation(f"ambiguous_operation_returned:{ka}{op}{kb}:scaled", f"Q({x},{ua}) {op} Q({y},{ub})*2m/cm returned {r.magnitude!r} {dict(r._units)}")
+        if not isinstance(r, pint.OffsetUnitCalculusError):
+            raise Violation(f"ambiguous_operation_wrong_exception:{exc_class(r)}:scaled", f"{ua} {op} {ub}*m/cm: {r!r}")
+        return
+    if s == "err":
+        raise Violation(f"documented_operation_refused:{ka}{op}{kb}:scaled:{exc_class(r)}", f"Q({x},{ua}) {op} Q({y},{ub})*2m/cm raised {type(r).__name__}: {r}")
+    if got_units(r) != {wu: 1}:
+        s2, r2 = attempt(r.to, wu)
+        if s2 == "err":
+            raise Violation(f"wrong_result_unit:{ka}{op}{kb}:scaled", f"Q({x},{ua}) {op} Q({y},{ub})*2m/cm has units {dict(r._units)}, not convertible to {wu}: {r2!r}")
+        r = r2
+    if isinstance(r.magnitude, float) or Fraction(r.magnitude) != wv:
+        raise Violation(f"wrong_result_value:{ka}{op}{kb}:scaled", f"Q({x},{ua}) {op} Q({y},{ub})*2m/cm = {r.magnitude!r} {wu}, the same sum with Q({200 * y},{ub}) is {wv}")
 
 
 def run_addsub(task, tier, seed, col):
